@@ -217,6 +217,9 @@ def signature_of(ops, r):
 
 # error exits: p_shm_lock / p_shm_unlock of the next op fail (scripted sem_wait / sem_post failure), NULL arguments
 LOCKFAIL = [
+    # the lock's sem_wait interrupted by handled signals (1, 2, 5 times) before every kind of op: nothing may show
+    ["new 0 8", "failsem 2 0", "w 0 010203", "pos", "failsem 3 0", "r 0 2", "pos", "failsem 6 0", "used 0", "failsem 2 0", "free 0", "failsem 3 0", "clr 0", "pos", "used 0",
+     "failsem 2 0", "w 0 0405", "failsem 2 0", "r 0 9", "pos"],
     ["new 0 8", "null", "w 0 010203", "failsem 1 0", "r 0 2", "pos", "failsem 0 1", "r 0 2", "pos", "used 0", "failsem 1 0", "w 0 0405", "pos", "failsem 0 1", "w 0 0405", "pos", "used 0",
      "failsem 1 0", "used 0", "failsem 0 1", "used 0", "failsem 1 0", "free 0", "failsem 0 1", "free 0", "failsem 1 0", "clr 0", "pos", "used 0", "failsem 0 1", "clr 0", "pos", "used 0",
      "failsem 1 1", "wz 0 3", "pos", "failsem 0 1", "w 0 " + "aa" * 9, "failsem 0 1", "r 0 0", "r 0 5", "failsem 1 0", "w 0 -", "pos", "failsem 0 1", "wz 0 2", "pos", "r 0 9"],
@@ -228,14 +231,17 @@ def sprinkle_lock_failures(rng, ops, p=0.06):
     out = []
     for o in ops:
         if o.split()[0] in ("w", "wz", "r", "clr", "used", "free") and rng.random() < p:
-            out.append("failsem %d %d" % rng.choice([(1, 0), (0, 1), (1, 1)]))
+            out.append("failsem %d %d" % rng.choice([(1, 0), (0, 1), (1, 1), (2, 0), (4, 0)]))
         out.append(o)
     return out
 
 
 def run(chk):
     cfg = pv.repo_config()
-    proof_ok, driver_ok, detail = pv.proof_stage(chk, ["PV.Props.C08"])
+    # the buffer lives in a PShm segment and is locked by its semaphore: the facts extracted from pshm-posix.c and
+    # psemaphore-posix.c (anchors of this property too) and the theorems of C07 / C06 over them are audited here as well — a
+    # change of those files that the translator refuses breaks this property's obligations too
+    proof_ok, driver_ok, detail = pv.proof_stage(chk, ["PV.Props.C08", "PV.Props.C07", "PV.Props.C06"])
     if any(d.startswith("extractor: ") and "pshmbuffer" in d for d in detail):
         proof_ok = False
     exe = pv.build_harness("sb", cfg, ["sb.c"], san="asan", link=["-Wl,--wrap=sem_wait,--wrap=sem_post"])
